@@ -2,7 +2,7 @@
    the local (one-decision / one-step) facts behind C01-C03, C05, C11, C14,
    C17.  Each is about the executable definitions of Build/Model.v. *)
 From Coq Require Import ZArith Lia.
-From Redo Require Import Base.Bytes Base.BytesProofs Build.Model Build.FsLemmas.
+From Redo Require Import Base.Bytes Base.BytesProofs Build.Model Build.FsLemmas Build.RecordProofs.
 
 Lemma list_eqb_N_refl (l : list N) : list_eqb N.eqb l l = true.
 Proof. induction l as [|x l IHl]; cbn; [reflexivity|]. now rewrite N.eqb_refl, IHl. Qed.
@@ -275,3 +275,88 @@ Lemma is_dirty_cycle_detected fuel runid w c f mx seen :
   existsb (Nat.eqb f) seen = true ->
   is_dirty (S fuel) runid w c f mx seen = Ret (VCycle, w, c, []).
 Proof. exact (is_dirty_cycle fuel runid w c f mx seen). Qed.
+
+(* ------------------------------------------------------------ C05: propagation *)
+Lemma status_of_nonzero before after rc stdout has_tmp :
+  rc <> 0%Z -> status_of before after rc stdout has_tmp <> 0%Z.
+Proof.
+  intro H. unfold status_of.
+  destruct (modified_b before after); [discriminate|].
+  destruct (has_tmp && match stdout with Some _ => true | None => false end); [discriminate|exact H].
+Qed.
+
+(* only a cyclic dependency makes a job abort its whole process, with 208 *)
+Lemma start_self_never_aborts rec e t f before w w' evs rv ab :
+  start_self rec e t f before w = Ret (w', evs, rv, ab) -> ab = false.
+Proof.
+  unfold start_self. intro H.
+  repeat match type of H with
+  | context [match ?X with _ => _ end] => destruct X; try discriminate
+  end;
+  inversion H; reflexivity.
+Qed.
+
+Lemma start_abort_is_208 rec fuel e m t w w' evs rv :
+  start rec fuel e m t w = Ret (w', evs, rv, true) -> rv = 208%Z.
+Proof.
+  unfold start. destruct (from_name (dbs w) t) as [d0 f].
+  destruct m.
+  - intro H. apply start_self_never_aborts in H. discriminate.
+  - destruct (is_failed _ _); [intro H; inversion H|].
+    destruct (is_dirty _ _ _ _ _ _ _) as [[[[v w1] c1] evd]|]; [|discriminate].
+    set (v' := match v with VNeed [x] => if Nat.eqb x f then VDirty else v | _ => v end).
+    destruct v'.
+    + intro H. inversion H.
+    + unfold prepend_events. destruct (start_self _ _ _ _ _ _) as [[[[? ?] ?] ab]|] eqn:E; [|discriminate].
+      apply start_self_never_aborts in E. subst. intro H. inversion H.
+    + destruct (e_no_oob e).
+      * unfold prepend_events. destruct (start_self _ _ _ _ _ _) as [[[[? ?] ?] ab]|] eqn:E; [|discriminate].
+        apply start_self_never_aborts in E. subst. intro H. inversion H.
+      * destruct (rec _ _ _ _) as [[[? ?] rc1]|]; [|discriminate].
+        destruct (negb (Z.eqb rc1 0)); [intro H; inversion H|].
+        destruct (rec _ _ _ _) as [[[? ?] ?]|]; intro H; inversion H.
+    + intro H. inversion H. reflexivity.
+Qed.
+
+(* a command in which some job has failed never exits 0 *)
+Lemma run_loop_errored_nonzero rec fuel e m : forall ts seen w evs w' evs' rc,
+  run_loop (start rec fuel e m) e ts seen w evs true = Ret (w', evs', rc) -> rc <> 0%Z.
+Proof.
+  induction ts as [|t ts IH]; intros seen w evs w' evs' rc H; cbn [run_loop] in H.
+  - inversion H. discriminate.
+  - destruct (true && negb (e_keep_going e)); [inversion H; discriminate|].
+    destruct (from_name (dbs w) t) as [d0 f].
+    destruct (existsb (Nat.eqb f) seen); [eapply IH; exact H|].
+    destruct (negb (e_unlocked e) && existsb (Nat.eqb f) (e_cycles e)); [inversion H; discriminate|].
+    destruct (start rec fuel e m t w) as [[[[w1 e1] rv] ab]|] eqn:E; [|discriminate].
+    destruct ab.
+    + apply start_abort_is_208 in E. inversion H; subst. discriminate.
+    + cbn [orb] in H. eapply IH. exact H.
+Qed.
+
+(* ... and a failing job makes the command fail, whatever comes after it *)
+Lemma run_loop_job_failure_propagates rec fuel e m t ts seen w evs w1 ev1 rv w' evs' rc :
+  (false && negb (e_keep_going e)) = false ->
+  let '(d0, f) := from_name (dbs w) t in
+  existsb (Nat.eqb f) seen = false ->
+  (negb (e_unlocked e) && existsb (Nat.eqb f) (e_cycles e)) = false ->
+  start rec fuel e m t w = Ret (w1, ev1, rv, false) -> rv <> 0%Z ->
+  run_loop (start rec fuel e m) e (t :: ts) seen w evs false = Ret (w', evs', rc) -> rc <> 0%Z.
+Proof.
+  intros _. destruct (from_name (dbs w) t) as [d0 f] eqn:Ef. intros Hs Hc Hst Hrv H.
+  cbn [run_loop andb] in H. rewrite Ef, Hs, Hc, Hst in H.
+  assert (Hn : negb (Z.eqb rv 0) = true) by (apply negb_true_iff, Z.eqb_neq; exact Hrv).
+  rewrite Hn in H. cbn [orb] in H. eapply run_loop_errored_nonzero. exact H.
+Qed.
+
+(* a script whose redo-ifchange fails ends its job with a non-zero status *)
+Lemma script_body_dep_failure rec envc t sc w w1 evs rc_deps :
+  s_deps sc <> [] ->
+  rec envc MIfChange (s_deps sc) w = Ret (w1, evs, rc_deps) -> rc_deps <> 0%Z ->
+  script_body rec envc t sc w = Ret (w1, evs, rc_deps, None).
+Proof.
+  intros Hne Hrec Hrc. unfold script_body.
+  destruct (s_deps sc) as [|d ds] eqn:Ed; [congruence|]. rewrite Hrec.
+  assert (Hn : negb (Z.eqb rc_deps 0) = true) by (apply negb_true_iff, Z.eqb_neq; exact Hrc).
+  now rewrite Hn.
+Qed.
